@@ -6,7 +6,7 @@
 """
 import json, os, random, shutil, io, contextlib, math
 from harness.tlc import run_tlc, scratch_dir, TLCError
-from harness.record import Recorder, NONE
+from harness.record import Recorder, NONE, InjectedFault
 
 KINDS = ["DE", "DE2", "NM", "PW"]
 
@@ -142,8 +142,12 @@ def run_script(kind, script, seed=0, dim=2, npop=4, cost=None, scripted_term=Fal
                     rec.finalize()
                 elif name == "query":
                     rec.query()
+                elif name == "fault_in":
+                    rec.fault_in(op[1])
                 else:
                     raise ValueError(op)
+            except InjectedFault:
+                break
             except Exception as ex:
                 if not rec.events or rec.events[-1].get("ev") != "Raise":
                     rec.events.append({"ev": "Raise", "what": repr(ex)[:300], "op": op})
